@@ -1,0 +1,19 @@
+//go:build verif
+
+// Contracts for contract-based deductive verification (checked by /verif/govc).
+// This file is comment-only and compiled only with the build tag "verif".
+
+package topologyaware
+
+// ---- C12: a container that preserves its memory pinning never enters the cold-start machinery -------------------
+// grant.ReallocMemory() (run when a cold-start timer fires) re-pins the container's memory unconditionally; what keeps
+// memory.preserve containers out of it is that newRequest() gives them no cold-start duration.
+// The annotation parsers are outside the contract (deterministic functions of pod and container).
+//@ effect memoryAllocationPreference pure
+//@ effect coldStartPreference pure
+//@ func newRequest ints=bv64
+//@   # the memory types the allocator offers are DRAM/PMEM/HBM bits (never the policy-private 'preserve' marker),
+//@   # and the container's pod is cached (GetPod succeeds for containers the handlers pass to the policy)
+//@   requires container != nil && opt != nil && container.GetPod().0 != nil
+//@   requires (types & libmem.TypeMask(memoryPreserve)) == 0
+//@   ensures[C12] rq(result).memType == memoryPreserve ==> rq(result).coldStart == 0
